@@ -94,6 +94,12 @@ let () =
               (* U P -> solvable | greedy | explicit-first *)
               let u = universe s in let p = problem s in
               Printf.sprintf "%s | %s | %s" (b (o_solvable u p)) (polist (o_greedy u p)) (polist (o_explicit_first u p))
+            | "soft" ->
+              (* U P -> none | some x1 x2 ... (soft solvables that must be accepted) *)
+              let u = universe s in let p = problem s in
+              (match o_soft_expect u p with
+               | None -> "none"
+               | Some l -> "some " ^ plist (List.map fst l))
             | "logsat" ->
               (* U P log sol -> db-ok run-ok sat-ok [first bad clause index | -] *)
               let u = universe s in let p = problem s in let lg = log s in let sol = nlist s in
